@@ -13,11 +13,14 @@ package locRIB
 // point; the oracle is evaluated on every one of them.
 //
 // Layout (so that the concurrent part can reuse it on a controlled scheduler):
+//   zvC04Client         recording RouteTableClient (call log + accumulated set)
 //   zvC04Env            real LocRIB + recording clients + bookkeeping
-//   zvC04Env.Apply      executes ONE operation on the real objects
+//   zvC04Env.Apply      executes ONE operation on the real objects (the
+//                       register/unregister bookkeeping is in there as well)
 //   zvC04Env.Check      the oracle (pure observation through the public API)
 //   zvC04Env.Canon      canonical state
-//   zvC04Step/…Explore  the BFS driver (only user of vh.BFS)
+//   zvC04Admitted       the first paths of a selection that an option admits
+//   zvC04Explorer       the BFS driver (only user of vh.BFS): run/coverage/explore
 
 import (
 	"crypto/sha256"
@@ -32,6 +35,7 @@ import (
 	"github.com/bio-routing/bio-rd/protocols/bgp/types"
 	"github.com/bio-routing/bio-rd/route"
 	"github.com/bio-routing/bio-rd/routingtable"
+	"github.com/bio-routing/bio-rd/util/log"
 	"github.com/bio-routing/bio-rd/zzverif/vh"
 )
 
@@ -66,10 +70,10 @@ var zvC04Opts = []zvC04Opt{{"best", 0}, {"ecmp", 0}, {"max", 1}, {"max", 2}, {"m
 // zvC04Op is one operation of the alphabet.
 type zvC04Op struct {
 	Kind string `json:"op"`   // add | remove | replace | register | unregister | refresh | dispose
-	P    int    `json:"pfx"`  // prefix index (add/remove/replace)
-	X    int    `json:"path"` // path index (add/remove; the OLD path of replace)
-	Y    int    `json:"new"`  // the NEW path of replace
-	C    int    `json:"cli"`  // client index (register/unregister/refresh)
+	P    int8   `json:"pfx"`  // prefix index (add/remove/replace)
+	X    int8   `json:"path"` // path index (add/remove; the OLD path of replace)
+	Y    int8   `json:"new"`  // the NEW path of replace
+	C    int8   `json:"cli"`  // client index (register/unregister/refresh)
 }
 
 func (o zvC04Op) String() string {
@@ -102,8 +106,6 @@ type zvC04Case struct {
 //	S   static path                          (another protocol)
 //	S2  second static path (thorough tier only; static paths are always equal-cost)
 var zvC04PathNames = []string{"B", "E1", "E2", "W", "S", "S2"}
-
-const zvC04Static = 4 // indices >= zvC04Static are static paths
 
 func zvC04MkPath(x int) *route.Path {
 	bgp := func(lp, med uint32, peer uint8) *route.Path {
@@ -255,47 +257,131 @@ type zvC04Call struct {
 	Paths []string
 }
 
+// zvC04Held is the accumulated set of one prefix: alphabet paths as a bit set
+// (bit i = zvC04PathNames[i]), anything else by its "?fingerprint" name.
+type zvC04Held struct {
+	Pfx     string
+	Bits    uint8
+	Foreign []string
+}
+
+func (h *zvC04Held) names() []string {
+	var out []string
+	for i, n := range zvC04PathNames {
+		if h.Bits&(1<<uint(i)) != 0 {
+			out = append(out, n)
+		}
+	}
+	f := append([]string{}, h.Foreign...)
+	sort.Strings(f)
+	return append(out, f...)
+}
+
+var zvC04NameIdx = func() map[string]int {
+	m := map[string]int{}
+	for i, n := range zvC04PathNames {
+		m[n] = i
+	}
+	return m
+}()
+
+var zvC04One = func() map[string][]string { // shared one-element slices (never modified)
+	m := map[string][]string{}
+	for _, n := range zvC04PathNames {
+		m[n] = []string{n}
+	}
+	return m
+}()
+
+func zvC04OneName(n string) []string {
+	if s, ok := zvC04One[n]; ok {
+		return s
+	}
+	return []string{n}
+}
+
 // zvC04Client records every call of the RouteTableClient interface and keeps
 // the accumulated set: initial dump ∪ additions ∪ refreshed ∖ removals, per
 // prefix, set semantics, paths identified by attribute fingerprint.
 type zvC04Client struct {
 	Calls []zvC04Call
-	Have  map[string]map[string]bool // prefix string -> path name -> held
+	Have  []zvC04Held // one entry per prefix with a non-empty set
 }
 
-func zvC04NewClient() *zvC04Client { return &zvC04Client{Have: map[string]map[string]bool{}} }
+func zvC04NewClient() *zvC04Client { return &zvC04Client{} }
 
 func (c *zvC04Client) pfx(p *bnet.Prefix) string { return zvC04PfxStr(p) }
 
 func (c *zvC04Client) give(pfx string, name string) {
-	if c.Have[pfx] == nil {
-		c.Have[pfx] = map[string]bool{}
+	var h *zvC04Held
+	for i := range c.Have {
+		if c.Have[i].Pfx == pfx {
+			h = &c.Have[i]
+		}
 	}
-	c.Have[pfx][name] = true
+	if h == nil {
+		c.Have = append(c.Have, zvC04Held{Pfx: pfx})
+		h = &c.Have[len(c.Have)-1]
+	}
+	if i, ok := zvC04NameIdx[name]; ok {
+		h.Bits |= 1 << uint(i)
+	} else if !zvC04Contains(h.Foreign, name) {
+		h.Foreign = append(h.Foreign, name)
+	}
 }
 
 func (c *zvC04Client) take(pfx string, name string) {
-	delete(c.Have[pfx], name)
-	if len(c.Have[pfx]) == 0 {
-		delete(c.Have, pfx)
+	for i := range c.Have {
+		h := &c.Have[i]
+		if h.Pfx != pfx {
+			continue
+		}
+		if k, ok := zvC04NameIdx[name]; ok {
+			h.Bits &^= 1 << uint(k)
+		} else {
+			var f []string
+			for _, n := range h.Foreign {
+				if n != name {
+					f = append(f, n)
+				}
+			}
+			h.Foreign = f
+		}
+		if h.Bits == 0 && len(h.Foreign) == 0 {
+			c.Have = append(c.Have[:i:i], c.Have[i+1:]...)
+		}
+		return
 	}
 }
 
+// Held returns the names of the paths held for a prefix (alphabet order, then foreign names sorted).
+func (c *zvC04Client) Held(pfx string) []string {
+	for i := range c.Have {
+		if c.Have[i].Pfx == pfx {
+			return c.Have[i].names()
+		}
+	}
+	return nil
+}
+
 func (c *zvC04Client) AddPath(pfx *bnet.Prefix, p *route.Path) error {
-	c.Calls = append(c.Calls, zvC04Call{"add", c.pfx(pfx), []string{zvC04Name(p)}})
-	c.give(c.pfx(pfx), zvC04Name(p))
+	n := zvC04Name(p)
+	c.Calls = append(c.Calls, zvC04Call{"add", c.pfx(pfx), zvC04OneName(n)})
+	c.give(c.pfx(pfx), n)
 	return nil
 }
 
 func (c *zvC04Client) AddPathInitialDump(pfx *bnet.Prefix, p *route.Path) error {
-	c.Calls = append(c.Calls, zvC04Call{"dump", c.pfx(pfx), []string{zvC04Name(p)}})
-	c.give(c.pfx(pfx), zvC04Name(p))
+	n := zvC04Name(p)
+	c.Calls = append(c.Calls, zvC04Call{"dump", c.pfx(pfx), zvC04OneName(n)})
+	c.give(c.pfx(pfx), n)
 	return nil
 }
 
 func (c *zvC04Client) RemovePath(pfx *bnet.Prefix, p *route.Path) bool {
-	c.Calls = append(c.Calls, zvC04Call{"remove", c.pfx(pfx), []string{zvC04Name(p)}})
-	c.take(c.pfx(pfx), zvC04Name(p))
+	n := zvC04Name(p)
+	c.Calls = append(c.Calls, zvC04Call{"remove", c.pfx(pfx), zvC04OneName(n)})
+	c.take(c.pfx(pfx), n)
 	return true
 }
 
@@ -318,21 +404,30 @@ func (c *zvC04Client) EndOfRIB() { c.Calls = append(c.Calls, zvC04Call{Kind: "eo
 func (c *zvC04Client) Dispose()  { c.Calls = append(c.Calls, zvC04Call{Kind: "dispose"}) }
 
 // Reset starts a new registration epoch (a client that registers begins with nothing).
-func (c *zvC04Client) Reset() { c.Have = map[string]map[string]bool{} }
+func (c *zvC04Client) Reset() { c.Have = nil }
 
 func (c *zvC04Client) haveString() string {
-	var ks []string
-	for pfx, m := range c.Have {
-		var ns []string
-		for n := range m {
-			ns = append(ns, n)
-		}
-		sort.Strings(ns)
-		ks = append(ks, pfx+"{"+strings.Join(ns, ",")+"}")
+	ks := make([]string, 0, len(c.Have))
+	for i := range c.Have {
+		ks = append(ks, c.Have[i].Pfx+"{"+strings.Join(c.Have[i].names(), ",")+"}")
 	}
 	sort.Strings(ks)
 	return strings.Join(ks, " ")
 }
+
+// zvC04NopLogger silences the repo's logger (the Loc-RIB builds a structured
+// log entry per operation; with the default zap wrapper that costs more than
+// the operation itself). Logging is not part of any observation.
+type zvC04NopLogger struct{}
+
+func (zvC04NopLogger) Errorf(string, ...interface{})               {}
+func (zvC04NopLogger) Infof(string, ...interface{})                {}
+func (zvC04NopLogger) Debugf(string, ...interface{})               {}
+func (zvC04NopLogger) Error(string)                                {}
+func (zvC04NopLogger) Info(string)                                 {}
+func (zvC04NopLogger) Debug(string)                                {}
+func (l zvC04NopLogger) WithFields(log.Fields) log.LoggerInterface { return l }
+func (l zvC04NopLogger) WithError(error) log.LoggerInterface       { return l }
 
 // ---------------------------------------------------------------------------
 // environment: real objects + bookkeeping; Apply / Check / Canon are reusable
@@ -369,8 +464,8 @@ func zvC04NewEnv(universe string, opts []zvC04Opt) *zvC04Env {
 // is exercised by every later operation.
 func (e *zvC04Env) Prologue() {
 	for ci := range e.Clients {
-		e.Apply(zvC04Op{Kind: "register", C: ci})
-		e.Apply(zvC04Op{Kind: "unregister", C: ci})
+		e.Apply(zvC04Op{Kind: "register", C: int8(ci)})
+		e.Apply(zvC04Op{Kind: "unregister", C: int8(ci)})
 	}
 }
 
@@ -396,11 +491,11 @@ func (e *zvC04Env) Apply(o zvC04Op) {
 	}
 	switch o.Kind {
 	case "add":
-		e.Rib.AddPath(e.Pfxs[o.P], zvC04MkPath(o.X))
+		e.Rib.AddPath(e.Pfxs[o.P], zvC04MkPath(int(o.X)))
 	case "remove":
-		e.Rib.RemovePath(e.Pfxs[o.P], zvC04MkPath(o.X))
+		e.Rib.RemovePath(e.Pfxs[o.P], zvC04MkPath(int(o.X)))
 	case "replace":
-		e.Rib.ReplacePath(e.Pfxs[o.P], zvC04MkPath(o.X), zvC04MkPath(o.Y))
+		e.Rib.ReplacePath(e.Pfxs[o.P], zvC04MkPath(int(o.X)), zvC04MkPath(int(o.Y)))
 	case "register":
 		e.Clients[o.C].Reset()
 		e.Reg[o.C] = true
@@ -493,21 +588,14 @@ func (e *zvC04Env) Check() []zvC04Diff {
 		}
 		for i, p := range e.Pfxs {
 			want := zvC04Admitted(sels[i].names, sels[i].ecmp, e.Opts[ci])
-			have := cl.Have[zvC04PfxStr(p)]
-			wm := map[string]bool{}
+			have := cl.Held(zvC04PfxStr(p))
 			for _, w := range want {
-				wm[w] = true
-				if !have[w] {
+				if !zvC04Contains(have, w) {
 					out = append(out, zvC04Diff{"accumulated", ci, "missing", fmt.Sprintf("client %d (%s) lacks path %s of %s; Loc-RIB selection %v (equal-cost %d), client holds {%s}", ci, e.Opts[ci], w, p, sels[i].names, sels[i].ecmp, cl.haveString())})
 				}
 			}
-			var hs []string
-			for h := range have {
-				hs = append(hs, h)
-			}
-			sort.Strings(hs)
-			for _, h := range hs {
-				if !wm[h] {
+			for _, h := range have {
+				if !zvC04Contains(want, h) {
 					k := "extra"
 					if strings.HasPrefix(h, "?") {
 						k = "foreign_path"
@@ -517,9 +605,9 @@ func (e *zvC04Env) Check() []zvC04Diff {
 			}
 		}
 		var ps []string
-		for p := range cl.Have {
-			if !known[p] {
-				ps = append(ps, p)
+		for i := range cl.Have {
+			if !known[cl.Have[i].Pfx] {
+				ps = append(ps, cl.Have[i].Pfx)
 			}
 		}
 		sort.Strings(ps)
@@ -578,25 +666,25 @@ func zvC04Alphabet(paths [2][]int) []zvC04Op {
 	var ops []zvC04Op
 	for p := 0; p < 2; p++ {
 		for _, x := range paths[p] {
-			ops = append(ops, zvC04Op{Kind: "add", P: p, X: x})
+			ops = append(ops, zvC04Op{Kind: "add", P: int8(p), X: int8(x)})
 		}
 	}
 	for p := 0; p < 2; p++ {
 		for _, x := range paths[p] {
-			ops = append(ops, zvC04Op{Kind: "remove", P: p, X: x})
+			ops = append(ops, zvC04Op{Kind: "remove", P: int8(p), X: int8(x)})
 		}
 	}
 	for p := 0; p < 2; p++ {
 		for _, x := range paths[p] {
 			for _, y := range paths[p] {
 				if x != y {
-					ops = append(ops, zvC04Op{Kind: "replace", P: p, X: x, Y: y})
+					ops = append(ops, zvC04Op{Kind: "replace", P: int8(p), X: int8(x), Y: int8(y)})
 				}
 			}
 		}
 	}
 	for c := 0; c < 2; c++ {
-		ops = append(ops, zvC04Op{Kind: "register", C: c}, zvC04Op{Kind: "unregister", C: c}, zvC04Op{Kind: "refresh", C: c})
+		ops = append(ops, zvC04Op{Kind: "register", C: int8(c)}, zvC04Op{Kind: "unregister", C: int8(c)}, zvC04Op{Kind: "refresh", C: int8(c)})
 	}
 	ops = append(ops, zvC04Op{Kind: "dispose"})
 	return ops
@@ -624,8 +712,10 @@ func zvC04Mixed(sel []string) bool {
 }
 
 // run replays hist on fresh objects; the oracle is evaluated after the last
-// operation. It returns the environment (nil after a panic), and whether the
-// state is to be expanded.
+// operation (earlier prefixes of hist were checked when they were visited).
+// ok=false prunes the state: a violated state is not expanded, so the first
+// counterexample of every signature is a shortest one and consequences of a
+// divergence are not reported as further violations.
 func (x *zvC04Explorer) run(hist []zvC04Op, count bool, wantTrace bool) (canon string, enabled []zvC04Op, ok bool, trace string) {
 	r := x.r
 	cs := zvC04Case{x.universe, x.paths, x.opts, hist}
@@ -715,19 +805,20 @@ func (x *zvC04Explorer) run(hist []zvC04Op, count bool, wantTrace bool) (canon s
 	// RemovePath of an absent path and ReplacePath of an absent old path are
 	// no-ops by any reading; one representative per prefix (the lowest absent
 	// path index) is kept in the alphabet instead of all of them.
-	var absent, absent2 [2]int // lowest and second lowest absent path index
+	var absent, absent2 [2]int8 // lowest and second lowest absent path index
 	for pi := range e.Pfxs {
 		absent[pi], absent2[pi] = -1, -1
 		for _, i := range x.paths[pi] {
 			if !zvC04Contains(sel[pi], zvC04PathNames[i]) {
 				if absent[pi] < 0 {
-					absent[pi] = i
+					absent[pi] = int8(i)
 				} else if absent2[pi] < 0 {
-					absent2[pi] = i
+					absent2[pi] = int8(i)
 				}
 			}
 		}
 	}
+	enabled = make([]zvC04Op, 0, len(x.ops)/2)
 	for _, o := range x.ops {
 		switch o.Kind {
 		case "add":
@@ -842,7 +933,7 @@ func (x *zvC04Explorer) coverage(e *zvC04Env, last zvC04Op, before zvC04Snap) {
 			if o.Kind == "ecmp" && before.Ecmp[last.P] != after.Ecmp[last.P] && before.Ecmp[last.P] > 0 && after.Ecmp[last.P] > 0 {
 				r.Count("ecmp_count_changes_under_registered_client", 1)
 			}
-		case last.Kind == "register" && last.C == ci:
+		case last.Kind == "register" && int(last.C) == ci:
 			if len(after.Sel[0])+len(after.Sel[1]) > 0 {
 				r.Count("register_on_nonempty_rib", 1)
 			} else {
@@ -935,7 +1026,8 @@ func TestVerifC04(t *testing.T) {
 	r := vh.Start(t, "C04")
 	defer r.Finish()
 	// the live heap is tiny and the replays allocate a lot: collect less often
-	defer debug.SetGCPercent(debug.SetGCPercent(1000))
+	defer debug.SetGCPercent(debug.SetGCPercent(400))
+	log.SetLogger(zvC04NopLogger{})
 	r.Rule("per (prefix universe, path alphabet per prefix, pair of client options from {best, ecmp, max1..max4}; quick: nested prefixes, {B,E1,E2,W,S}|{E1,E2}, unordered pairs; " +
 		"thorough: ordered pairs x {nested full|full, siblings full|full, nested {B,E1,E2,W,S,S2}|{E1,E2}}): BFS over all sequences of " +
 		"AddPath/RemovePath/ReplacePath, RegisterWithOptions/Unregister/RefreshClient (2 clients), Dispose " +
